@@ -10,8 +10,13 @@ git -C /repo worktree remove --force $WT 2>/dev/null
 git -C /repo worktree add --detach $WT -q || exit 2
 if ! git -C $WT apply /verif/seeded/$NAME/patch.diff 2>/dev/null; then
   # written against an earlier /repo HEAD (before a later fix: commit touched the same lines)
-  git -C $WT checkout -q --detach 6c0073a && git -C $WT apply /verif/seeded/$NAME/patch.diff || { echo "PATCH DOES NOT APPLY"; git -C /repo worktree remove --force $WT; exit 2; }
-  echo "(patch applied to 6c0073a, the /repo HEAD it was written against)"
+  ok=""
+  for base in 527b99c 6c0073a; do   # earlier /repo HEADs (before later fix: commits touched the same lines)
+    if git -C $WT checkout -q --detach $base && git -C $WT apply /verif/seeded/$NAME/patch.diff 2>/dev/null; then ok=$base; break; fi
+    git -C $WT checkout -q -- . 2>/dev/null
+  done
+  [ -n "$ok" ] || { echo "PATCH DOES NOT APPLY"; git -C /repo worktree remove --force $WT; exit 2; }
+  echo "(patch applied to $ok, the /repo HEAD it was written against)"
 fi
 cd /verif
 TIER=${SEED_TIER:-quick}
